@@ -12,7 +12,7 @@ ASSUMPTIONS = ["before/after comparison uses only the library's accessors and wi
 NSHARDS = {"quick": 32, "thorough": 64}
 BUDGET_S = {"quick": 200, "thorough": 1800}
 MIN_HITS = {
-    'quick': {"tx": 1121, "coinbase_tx": 179, "ext_satoshis": 1436, "ext_locking": 1278, "sat_2^64-1": 99, "txin": 1928, "conditional": 1693, "empty_pushdata": 564},
+    'quick': {"tx": 1121, "coinbase_tx": 179, "ext_satoshis": 1436, "ext_locking": 1278, "sat_2^64-1": 99, "txin": 4328, "conditional": 1693, "empty_pushdata": 564},
     'thorough': {"tx": 461419, "coinbase_tx": 67909, "ext_satoshis": 617335, "ext_locking": 539936, "sat_2^64-1": 40835, "txin": 921108, "conditional": 729591, "empty_pushdata": 261237},
 }
 SATS = [0, 1, 2**53, 2**53 + 1, 2**63 - 1, 2**63, 2**64 - 2, 2**64 - 1, 0x0102030405060708]
